@@ -87,7 +87,7 @@ pub fn taps_bucket(n: usize) -> &'static str {
 fn check(tape: &[u8], ctx: &Ctx) -> Outcome {
     let mut t = Tape::new(tape);
     let spec = ResizeSpec::decode(&mut t, &profile(ctx.tier));
-    let guard = t.chance(64);
+    let guard = !t.chance(64);
     let mut o = Outcome::new(spec.desc());
     let src = exec::src_image(&spec, if guard { Placement::GuardEnd } else { Placement::Heap });
     let run = match exec::run_resize(&spec, src.bytes(), 0xA5, if guard { Placement::GuardEnd } else { Placement::Heap }) {
